@@ -171,13 +171,27 @@ def impl_run(TableBundle, NotUnique, blocks, as_df, qs, n):
         # generator that builds a fresh, short-lived Table facade per block over the pooled frame (the frame stored
         # must be that block's own frame)
         form = (n + len(qs)) % 5 if as_df else (n + len(qs)) % 4
-        src = [iter(blocks), (x for x in blocks), list(blocks), tuple(blocks),
+        closed = []
+
+        def gen():
+            # like rows read from a file: the source is only readable until the caller closes it
+            for x in blocks:
+                if closed:
+                    raise ValueError("I/O operation on closed source")
+                yield x
+        src = [iter(blocks), gen(), list(blocks), tuple(blocks),
                ((bt, _fresh(obj)) for bt, obj in blocks)][form]
         # the flag is passed by keyword or positionally (second parameter), alternating by block count
         b = TableBundle(src, as_dataframe=as_df) if n % 2 else TableBundle(src, as_df)
+        # the bundle holds the blocks of the sequence it was built from: what the caller does with the sequence
+        # afterwards (re-using the buffer, closing the source) is not the bundle's business
+        closed.append(True)
+        if form == 2:
+            src.clear()
+            src.extend((bt, obj) for bt, obj in reversed(blocks[: max(1, n // 2)]))
+        order_ids = [id(x) for x in b]
     except Exception as e:  # noqa: BLE001 — the class is reported; model and oracle say which ones are expected
         return {"exc": type(e).__name__}
-    order_ids = [id(x) for x in b]
     remaining = {}
     for i in range(n):
         if blocks[i][0].name == "TABLE":
